@@ -492,9 +492,10 @@ async fn client_side(rep: &mut Report, sizes: &[usize], thorough: bool) {
     }
     // two local applications (different source ports) use the association in turn: every reply goes
     // to the application whose datagram it answers (the last sender), never to the other one
+    let app_b_keep = UdpSocket::bind("127.0.0.1:0").await.unwrap();
     {
-        let app_b = UdpSocket::bind("127.0.0.1:0").await.unwrap();
-        let apps = [&app, &app_b];
+        let app_b = &app_b_keep;
+        let apps = [&app, app_b];
         for (step, who) in [0usize, 1, 0, 1, 1, 0, 0, 1, 0].into_iter().enumerate() {
             rep.case(Some(&format!("two applications, step {step}: {}", if who == 0 { "A" } else { "B" })));
             let d = dgram(700 + step as u32, 40 + step);
@@ -517,6 +518,51 @@ async fn client_side(rep: &mut Report, sizes: &[usize], thorough: bool) {
                 break;
             }
         }
+    }
+    // a reply arrives in two pieces and, between the pieces, a datagram comes from ANOTHER local source address (an
+    // application that uses a fresh socket per request): the reply is still exactly one identical datagram (for the
+    // old or the new address — the relay cannot know), the framing of the return stream survives
+    {
+        let mut k = 0u32;
+        'cuts: for cut_at in [1usize, 2, 3, 20] {
+            for rounds in 0..2 {
+                k += 1;
+                rep.case(Some(&format!("source address changes between the two pieces of a reply (cut at {cut_at}, round {rounds})")));
+                let fresh = UdpSocket::bind("127.0.0.1:0").await.unwrap();
+                let back = dgram(1500 + k, 41 + k as usize);
+                let fb = framed(&back);
+                let _ = feed.send(Bytes::copy_from_slice(&fb[..cut_at]));
+                tokio::time::sleep(Duration::from_millis(20)).await;
+                let d = dgram(1600 + k, 17);
+                let _ = fresh.send_to(&d, laddr).await;
+                let got = collect_framed(&mut out, 1, 2000).await;
+                if got.len() != 1 || got[0] != d {
+                    rep.violation("C15:datagram-not-identical", &format!("a datagram from a new local source address while a reply was half-received: the tunnel carried {:?}", got.iter().map(|x| x.len()).collect::<Vec<_>>()), json!({"engine": "SEMI", "side": "client"}));
+                    break 'cuts;
+                }
+                let _ = feed.send(Bytes::copy_from_slice(&fb[cut_at..]));
+                let a = recv_one(&fresh, 1500).await;
+                let b = recv_one(&app, 50).await;
+                let b2 = recv_one(&app_b_keep, 50).await;
+                let all: Vec<Vec<u8>> = [a, b, b2].into_iter().flatten().map(|x| x.0).collect();
+                if all != vec![back.clone()] {
+                    rep.violation("C15:return-datagram-lost-when-source-address-changes", &format!("a {}-byte reply arrived as {cut_at} + {} stream bytes and a datagram from a new local source address came in between: the applications received {:?} bytes in total (one identical datagram expected)", back.len(), fb.len() - cut_at, all.iter().map(|x| x.len()).collect::<Vec<_>>()), json!({"engine": "SEMI", "side": "client", "cut": cut_at}));
+                    break 'cuts;
+                }
+                // the framing survived: an unfragmented reply follows
+                let next = dgram(1700 + k, 9);
+                let _ = feed.send(Bytes::from(framed(&next)));
+                let n1 = recv_one(&fresh, 1500).await;
+                if n1.as_ref().map(|x| &x.0) != Some(&next) {
+                    rep.violation("C15:return-datagram-lost-when-source-address-changes", &format!("after a source-address change in mid-reply the next reply reached the last sender as {:?} bytes ({} expected)", n1.map(|x| x.0.len()), next.len()), json!({"engine": "SEMI", "side": "client", "cut": cut_at}));
+                    break 'cuts;
+                }
+            }
+        }
+        // the original application speaks again (its address is the remembered one for what follows)
+        let d = dgram(1999, 5);
+        let _ = app.send_to(&d, laddr).await;
+        let _ = collect_framed(&mut out, 1, 2000).await;
     }
     // every 1-cut / 2-cut split of a 3-datagram return stream
     let set = vec![dgram(11, 2), dgram(12, 1), dgram(13, 6)];
